@@ -585,6 +585,26 @@ def others(tier, for_2d_target=False):
         if ne <= 4 or not for_2d_target:
             for k in ('a2b', 'SAb'):
                 for d in _grid(shp, BOOLS): out.append((k, d))
+    # ---- shapes that exist (mainly) to be REJECTED: every zero / non-zero pattern, one magnitude (see `representative`).
+    # A kernel may take a shortcut for an empty operand or an empty row ahead of its shape check, so the all-zero operand, the all-zero
+    # row and every mixed pattern must meet every target (which themselves run over all contents incl. all-zero).
+    rowconst = lambda m, n, v: [tuple((x,) * n for x in rows) for rows in itertools.product((0.0, v), repeat=m)]
+    rowconst_b = lambda m, n: [tuple((x,) * n for x in rows) for rows in itertools.product(BOOLS, repeat=m)]
+    if not th:          # (the thorough tier already holds these shapes with full alphabets)
+        for d in _grid((3,), VALS):
+            if representative(('a1', d)):
+                for k in ('a1', 'SV'): out.append((k, d))
+        for d in _grid((3,), BOOLS):
+            for k in ('a1b', 'SLV'): out.append((k, d))
+        for k in ('a2', 'SA'):
+            out += [(k, ((0.0, 0.0, 0.0),)), (k, ((1.0, 1.0, 1.0),))]                                  # 1 x 3
+            out += [(k, tuple((x,) for x in col)) for col in itertools.product((0.0, 1.0), repeat=3)]     # 3 x 1
+            out += [(k, d) for d in rowconst(2, 3, -1.0)]                                                # 2 x 3
+        for k in ('a2b', 'SAb'):
+            out += [(k, ((False, False, False),)), (k, ((True, True, True),))]
+            out += [(k, tuple((x,) for x in col)) for col in itertools.product(BOOLS, repeat=3)]
+    for k in ('a2', 'SA'): out += [(k, d) for d in rowconst(3, 2, -1.0)]                               # 3 x 2 (row-count mismatch with 2-row targets)
+    for k in ('a2b', 'SAb'): out += [(k, d) for d in rowconst_b(3, 2)]
     return out
 
 
@@ -621,9 +641,18 @@ def _flat(data):
 
 
 def representative(spec):
-    """operands kept for shape-INCOMPATIBLE pairings (where NumPy rejects whatever the values are): constant contents 0 or 1"""
+    """operands kept for shape-INCOMPATIBLE pairings (where NumPy rejects whatever the values are): EVERY zero / non-zero pattern
+    (all-zero, all-non-zero, every mixed pattern incl. all-zero rows) with a single magnitude 1 or -1 -- the sparse kernels branch on
+    which entries are stored, not on their values"""
     vals = set(_flat(spec[1])) if isinstance(spec[1], tuple) else {spec[1]}
-    return len(vals) == 1 and next(iter(vals)) in (0, 1)        # 0.0 == 0 == False, 1.0 == 1 == True
+    vals.discard(0)                                  # 0.0 == 0 == False
+    return len(vals) == 0 or (len(vals) == 1 and next(iter(vals)) in (1, -1))        # 1.0 == 1 == True
+
+
+def representative_value(spec):
+    """assigned values kept where NumPy rejects the assignment whatever the value holds: constant contents, all-zero or all-non-zero (1 / -1)"""
+    vals = set(_flat(spec[1])) if isinstance(spec[1], tuple) else {spec[1]}
+    return len(vals) == 1 and next(iter(vals)) in (0, 1, -1)
 
 
 def compatible(ts, os_):
@@ -655,7 +684,7 @@ class OpsSystem(System):
     def describe(self, tier):
         return dict(target_kind=self.tk, operators=sorted(BIN) + sorted(REFL) + sorted(IOP),
                     operands=len(others(tier, self.tk in ('SA', 'SAb'))),
-                    pruning='operands whose shape does not broadcast against the target are kept with constant contents (0 / 1) only')
+                    pruning='operands whose shape does not broadcast against the target are kept with every zero/non-zero pattern of one magnitude (1 or -1)')
 
     def build(self, config):
         st = St()
@@ -1031,7 +1060,7 @@ class IndexSystem(OpsSystem):
                 except Exception: ishape = None
                 for v in vals:
                     # a value that cannot be broadcast to the selection is rejected by NumPy whatever it holds -> constant contents only
-                    if ishape is not None and value_class(ishape, shape_of(v)) == 'mismatch' and not representative(v): continue
+                    if ishape is not None and value_class(ishape, shape_of(v)) == 'mismatch' and not representative_value(v): continue
                     acts.append(('set', ix, v))
             self._acts[key] = acts
         return self._acts[key]
